@@ -202,6 +202,7 @@ func linsimMain(c *Ctx) {
 		dc := linGen(r, c.Thorough())
 		tape := simrt.NewTape(seed)
 		tape.NoRec = simrt.RaceBuild
+		c.Begin(seed, dc)
 		out := runLinCase(c, dc, tape)
 		if simrt.RaceBuild {
 			sigs, details := raceSigs(raceDelta())
